@@ -148,11 +148,14 @@ inductive DivStmt
   | freshId2        -- daughter_2->cell_id_ = max_cell_id_++;
   | push1           -- cell_lst.push_back(daughter_1);
   | push2           -- cell_lst.push_back(daughter_2);
+  | collect1        -- daughter_cell_lst.push_back(daughter_1);
+  | collect2        -- daughter_cell_lst.push_back(daughter_2);
 deriving Repr, DecidableEq, Inhabited
 
-/-- the statements after the loop, inside `if(cells_to_delete_lst.size() > 0)` -/
+/-- the statements after the loop: `cell_lst.insert(cell_lst.end(), daughter_cell_lst.begin(), daughter_cell_lst.end())`,
+and, inside `if(cells_to_delete_lst.size() > 0)`, the sort, `remove_index` and the renumbering loop -/
 inductive DivPost
-  | sortDelete | removeIndex | renumber
+  | appendDaughters | sortDelete | removeIndex | renumber
 deriving Repr, DecidableEq, Inhabited
 
 /-- the calls of `solver::run_iteration`, in source order (tools/gen/c08_population.py) -/
@@ -164,6 +167,8 @@ deriving Repr, DecidableEq, Inhabited
 structure Code where
   phases : List Phase
   crit : List DivStmt
+  /-- statements between the loop and the `if(cells_to_delete_lst.size() > 0)` block -/
+  afterLoop : List DivPost
   post : List DivPost
   period : Nat
   /-- what the contact model stores as first / second component of a coupling -/
@@ -175,6 +180,8 @@ structure DState where
   maxId : Nat
   nextObj : Nat
   toDelete : List Nat
+  /-- `daughter_cell_lst`: daughters collected during the loop (empty when the code appends them directly) -/
+  pending : List Cell
   d1 : Cell
   d2 : Cell
 deriving Repr, Inhabited
@@ -188,6 +195,8 @@ def runDivStmt (i : Nat) : DState → DivStmt → DState
   | st, .freshId2 => { st with d2 := { st.d2 with cellId := st.maxId }, maxId := st.maxId + 1 }
   | st, .push1 => { st with cells := st.cells ++ [st.d1] }
   | st, .push2 => { st with cells := st.cells ++ [st.d2] }
+  | st, .collect1 => { st with pending := st.pending ++ [st.d1] }
+  | st, .collect2 => { st with pending := st.pending ++ [st.d2] }
 
 /-- the daughter objects as `create_daughter_cells` builds them: `get_cell_same_type(m)` constructs
 them with the MOTHER's id and type; faces point to the new object (`set_face_owner_cell`) -/
@@ -240,6 +249,7 @@ def insertAsc (a : Nat) : List Nat → List Nat
 def sortAsc (l : List Nat) : List Nat := l.foldr insertAsc []
 
 def runDivPost : DState → DivPost → DState
+  | st, .appendDaughters => { st with cells := st.cells ++ st.pending, pending := [] }
   | st, .sortDelete => { st with toDelete := sortAsc st.toDelete }
   | st, .removeIndex => { st with cells := removeIdx st.cells st.toDelete }
   | st, .renumber => { st with cells := renumberCells st.cells }
@@ -249,10 +259,11 @@ order their critical sections ran) with what `divide_cell` returned -/
 abbrev DivEv := List (Nat × Daughters)
 
 def dstate0 (s : State) : DState :=
-  { cells := s.cells, maxId := s.maxId, nextObj := s.nextObj, toDelete := [], d1 := default, d2 := default }
+  { cells := s.cells, maxId := s.maxId, nextObj := s.nextObj, toDelete := [], pending := [], d1 := default, d2 := default }
 
 def divisionRound (code : Code) (ev : DivEv) (s : State) : State :=
-  let st := divFold code.crit (dstate0 s) ev
+  let st0 := divFold code.crit (dstate0 s) ev
+  let st := code.afterLoop.foldl runDivPost st0
   let st' := if st.toDelete.length > 0 then code.post.foldl runDivPost st else st
   { s with cells := st'.cells, maxId := st'.maxId, nextObj := st'.nextObj }
 
